@@ -1650,7 +1650,7 @@ def _make_block_comment(text: str, prefix: str, comment: str, suffix: str, inden
     if len(suffix) > 0 and len(commented_doc_lines) > 0:
         commented_doc_lines.append(f"{' ' * indent}{suffix}")
 
-    return "\n".join(commented_doc_lines)
+    return "\n".join(map(_comment_safe_line, commented_doc_lines))
 
 
 @template_language_filter(__name__)
@@ -1868,3 +1868,11 @@ def filter_block_comment(language: Language, text: str, style: str, indent: int 
         indent=indent,
         line_length=line_length,
     )
+
+
+def _comment_safe_line(line: str) -> str:
+    """
+    A comment line must not end in a backslash (nor in the ??/ trigraph, nor in either followed by blanks): the
+    preprocessor would splice the next line, which is code, into the comment.
+    """
+    return f"{line} ." if line.rstrip().endswith(("\\", "??/")) else line
